@@ -151,6 +151,7 @@ const (
 	OpSelect
 	OpStore
 	OpApp // uninterpreted function
+	OpConstArray
 	OpIntAdd
 	OpIntSub
 	OpIntMul
@@ -758,7 +759,14 @@ func (ts *TermStore) Select(arr, idx *Term) *Term {
 		}
 		break
 	}
+	if arr.Op == OpConstArray {
+		return arr.Args[0]
+	}
 	return ts.mk(&Term{Op: OpSelect, Sort: arr.Sort.Elem, Args: []*Term{arr, idx}})
+}
+
+func (ts *TermStore) ConstArray(s *Sort, v *Term) *Term {
+	return ts.mk(&Term{Op: OpConstArray, Sort: s, Args: []*Term{v}})
 }
 
 func (ts *TermStore) Store(arr, idx, v *Term) *Term {
@@ -1036,6 +1044,8 @@ func termHead(t *Term, sub func(*Term) string) string {
 		return fmt.Sprintf("((_ fp.to_sbv %d) RTZ %s)", t.Sort.W, sub(t.Args[0]))
 	case OpFPFromBits:
 		return fmt.Sprintf("((_ to_fp %s) %s)", fpDims(t.Sort), sub(t.Args[0]))
+	case OpConstArray:
+		return fmt.Sprintf("((as const %s) %s)", t.Sort, sub(t.Args[0]))
 	}
 	n, ok := opNames[t.Op]
 	if !ok {
